@@ -828,6 +828,7 @@ lyplg_type_lypath_new(const struct ly_ctx *ctx, const char *value, size_t value_
     struct ly_err_item *e;
     const char *err_fmt = NULL;
     uint16_t oper;
+    uint32_t i;
 
     LY_CHECK_ARG_RET(ctx, ctx, value, path, err, LY_EINVAL);
 
@@ -856,6 +857,16 @@ lyplg_type_lypath_new(const struct ly_ctx *ctx, const char *value, size_t value_
     if (ret) {
         err_fmt = "Invalid instance-identifier \"%.*s\" value - syntax error%s%s";
         goto cleanup;
+    }
+
+    /* a value cannot refer to a variable */
+    for (i = 0; i < exp->used; ++i) {
+        if (exp->tokens[i] == LYXP_TOKEN_VARREF) {
+            LOGVAL(ctx, LYVE_XPATH, "Variable reference \"%.*s\" in path.", (int)exp->tok_len[i], exp->expr + exp->tok_pos[i]);
+            ret = LY_EVALID;
+            err_fmt = "Invalid instance-identifier \"%.*s\" value - syntax error%s%s";
+            goto cleanup;
+        }
     }
 
     if (options & LYPLG_TYPE_STORE_IMPLEMENT) {
